@@ -39,7 +39,8 @@ template <class T> struct Expert {
     }
     // Returns true when the library called ABORT.
     bool call() {
-        if (!stat_live) { StatInit(&stat); stat_live = true; }
+        if (stat_live) { StatFree(&stat); stat_live = false; }   // a fresh statistics object per call, as the examples do
+        StatInit(&stat); stat_live = true;
         info = -999;
         aborted = guarded([&] {
             if (ilu) Tr<T>::gsisx(&so, &A.A, perm_c.data(), perm_r.data(), etree.data(), equed, Rs.data(), Cs.data(), &L, &U, work, lwork, &Bv.X, &Xv.X, &rpg, &rcond, &Glu, &mu, &stat, &info);
